@@ -40,6 +40,14 @@ def handle : List String → String
   | ["VB", file] => showEx (readVB (unhex file))
   | ["VBrdw", file] => showEx (rdwVB (unhex file))
   | ["VBbdw", file] => showEx (bdwVB (unhex file))
+  -- positioned sources: `<kind>@ <pos> [lrecl] <whole file>`: the reader is made when `pos` bytes have been consumed
+  | ["F@", pos, lrecl, file] =>
+    match (Source.mk (unhex file) pos.toNat!).readF lrecl.toNat! with
+    | none => "TypeError"
+    | some rs => showRecs rs
+  | ["V@", pos, file] => showEx (Source.mk (unhex file) pos.toNat!).readV
+  | ["Vrdw@", pos, file] => showEx (Source.mk (unhex file) pos.toNat!).rdwV
+  | ["VB@", pos, file] => showEx (Source.mk (unhex file) pos.toNat!).readVB
   | _ => "bad-op"
 
 end Stingray.Drv.C05
